@@ -13,7 +13,7 @@ func init() {
 		level:       "other",
 		explanation: "Reply routing decided structurally: every request literal handed to the connection carries an id obtained from the atomic counter in the same loop iteration and used for one packet only; frames are written by one function under the connection's write lock; a request is registered in the in-flight table (under its mutex) before it is sent and only sent if registration succeeded; the receiver routes a packet to the channel registered under the id decoded from that very packet and removes the entry; a result channel is taken from the pool per request and returned only after its result was consumed.",
 		run:         runC03,
-		assumptions: []string{"peers answer with ids of outstanding requests (a foreign id ends the session by design)"},
+		assumptions: []string{"peers answer with ids of outstanding requests (a foreign id ends the session by design)", "fewer than 2^32 requests are issued while one request stays outstanding (the 32-bit id counter wraps; demonstrated only by fast-forwarding the counter)"},
 	})
 	register("C04", &propSpec{
 		level:       "other",
